@@ -1225,8 +1225,7 @@ pub fn run(ctx: &mut Ctx) {
         directly over synthetic job trees; simulation termination. Every market's event log (emitted under \
         its own lock) is checked against a sequential market specification. Non-trivial: >=2 reachable \
         states (exhaustive), the stop reason was reachable (early stop / panic). 'distinct_interleavings' \
-        counts distinct thread-normalised market event sequences."
-        .into();
+        counts distinct thread-normalised market event sequences. Additional sub-checks: (on_demand_stepwise) requests along the oracle's frontier while workers hold shared states, then run_to_completion + join; (simulation_finish_condition) several simulation workers without a target must all stop once the finish condition holds (logical clocks: model evaluations and traces finished per worker thread); (simulation_model_panic) a panic in next_state must surface from join.".into();
     ctx.assumptions = vec![
         "schedules are those produced by the OS scheduler plus the injected perturbations; not enumerated".into(),
         "a join that is late while the market still changes is inconclusive; only a stable parked picture is a hang".into(),
